@@ -17,7 +17,7 @@ RULE = ("cases from rng(seed, 2, 0, i): a random graph of 1..40 edges over r2/r3
         "chi2>0 after perturbing one measurement; every 5th checks linearity in Omega on twin edges; every 8th case is an operand history on one live edge (estimate / pose / offset / information replaced or modified in place between calls). distinct = fingerprint of the spec; "
         "non-trivial = chi2 above 1e3 x rounding bound, or a consistent graph with >=3 edges.")
 REQ = ["eval:error-vs-reference", "eval:information-stored-as-given", "eval:chi2-vs-eT-Omega-e", "eval:graph-chi2-is-sum", "eval:optimize-initial-chi2-is-graph-chi2", "eval:consistent-graph-chi2-zero", "eval:perturbed-measurement-chi2-positive",
-       "eval:chi2-linear-in-Omega", "eval:chi2-nonnegative-psd", "kind:odo-se3", "kind:lm-se3", "kind:lm-se2", "kind:lm-r2", "class:info:cross", "class:info:tiny_scale", "class:info:huge_scale", "class:q:wneg", "class:landmark_offset_rotated", "history_steps"]
+       "eval:chi2-linear-in-Omega", "eval:chi2-nonnegative-psd", "kind:odo-se3", "kind:lm-se3", "kind:lm-se2", "kind:lm-r2", "class:info:cross", "class:info:tiny_scale", "class:info:huge_scale", "class:q:wneg", "class:landmark_offset_rotated", "history_steps", "class:info:integer_dtype", "class:edges_prebound_to_stale_vertices", "class:graph_with_4000+_edges"]
 PLAN = {
     "quick": {"cases": 6000, "soft_s": 60, "min_nontrivial": 1000, "require": REQ},
     "thorough": {"cases": 120000, "soft_s": 1100, "min_nontrivial": 10000, "require": REQ},
@@ -85,7 +85,19 @@ def hostile_graph(rng, maxexp, labels, consistent=False, nmax=40):
             labels.add("kind:lm-" + k)
     if not edges:
         return None
-    return {"vertices": vertices, "edges": edges}
+    for e in edges:
+        if rng.random() < 0.05:
+            # whole-number information handed over as an integer array
+            n0 = len(e["info"])
+            A = rng.integers(-2, 3, size=(n0, n0))
+            e["info"] = (A @ A.T + np.diag(rng.integers(1, 5, size=n0))).astype(int).tolist()
+            e["info_dtype"] = "int"
+            labels.add("info:integer_dtype")
+    out = {"vertices": vertices, "edges": edges}
+    if rng.random() < 0.1:
+        out["prebind_stale"] = True
+        labels.add("edges_prebound_to_stale_vertices")
+    return out
 
 
 def history_case(ctx, i, rng):
@@ -109,7 +121,37 @@ def history_case(ctx, i, rng):
     ctx.nontrivial(gen.fingerprint({"spec": spec, "hist": hist}))
 
 
+def big_graph_case(ctx, rng):
+    """One large pure SE(2) odometry graph per run (thousands of edges, headings on both sides of +-pi): count-dependent code paths."""
+    nv = 1500
+    ne = int(rng.integers(4200, 5200))
+    vertices = [{"id": j, "kind": "se2", "pose": [float(x) for x in rng.normal(size=2) * 20] + [float(rng.choice([-1, 1]) * (math.pi - abs(rng.normal()) * 0.3)) if rng.random() < 0.5
+                                                                                               else float(rng.uniform(-3.1, 3.1))], "fixed": False} for j in range(nv)]
+    edges = []
+    for _ in range(ne):
+        a, b = rng.choice(nv, 2, replace=False)
+        z = [float(x) for x in rng.normal(size=2) * 5] + [float(rng.uniform(-3.1, 3.1))]
+        edges.append({"type": "odo", "ids": [int(a), int(b)], "info": gen.spd(rng, 3, 50.0, True).tolist(), "est": z, "est_kind": "se2"})
+    spec = {"vertices": vertices, "edges": edges}
+    g = M.build(spec)
+    tot, bound = 0.0, 0.0
+    for e in g._edges:
+        er = M.edge_ref_error(e)
+        if abs(abs(er[2]) - math.pi) < 1e-9:
+            continue
+        Om = np.asarray(e.information, dtype=float)
+        tot += float(er @ Om @ er)
+        bound += O.chi2_bound(er, Om, O.edge_scale(e))
+    with np.errstate(all="ignore"):
+        c = float(g.calc_chi2())
+    ctx.close("graph-chi2-is-sum", c, tot, bound + 8 * ne * R.EPS * abs(tot), {"edges": ne, "kind": "large pure SE(2) odometry graph"}, None, {"n_edges": ne, "n_vertices": nv})
+    ctx.count("class:graph_with_4000+_edges")
+    ctx.nontrivial("big-%d" % ne)
+
+
 def run_case(ctx, i, rng):
+    if i == 5:
+        return big_graph_case(ctx, rng)
     if i % 8 == 7:
         return history_case(ctx, i, rng)
     maxexp = 4.0 if ctx.tier == "quick" else 6.0
@@ -131,7 +173,8 @@ def run_case(ctx, i, rng):
         # the information matrix the edge works with is the one it was given (same values, double precision)
         given = np.array(es["info"], dtype=np.float64)
         live = np.asarray(e.information)
-        ctx.check("information-stored-as-given", live.shape == given.shape and np.array_equal(live.astype(np.float64), given) and live.dtype == np.float64, O.edge_features(e),
+        given_dtype = np.int64 if es.get("info_dtype") == "int" else np.float64
+        ctx.check("information-stored-as-given", live.shape == given.shape and np.array_equal(live.astype(np.float64), given) and live.dtype in (np.float64, given_dtype), O.edge_features(e),
                   {"dtype": str(live.dtype), "max_abs_diff": float(np.abs(live.astype(np.float64) - given).max()) if live.shape == given.shape else None}, case)
         r = O.check_edge_error(ctx, e, "graph-edge", case=case)
         if r is None:
